@@ -97,7 +97,7 @@ def run(ctx):
 
     # ------------------------------------------------------------------ FREE-ALL
     ctx.rule('FREE-ALL', 'set of SF_PRIVATE-owned pointer fields assigned a fresh allocation anywhere (allocator closure: malloc/calloc/realloc/strdup/psf_memdup and every '
-             'function returning such a value) is a subset of the fields released by free () in psf_close', floor=17)
+             'function returning such a value) is a subset of the fields released by free () in psf_close', floor=15)
     freed = {}
     for c, key, s in own.releases_in(psf_close):
         if key:
